@@ -31,13 +31,13 @@ def run(chk):
             continue
         nforms += 1
         label = "<%s as Not>::not" % sty["s"]
-        for L in (0, 1, 2, 3):
-            key = "%s with %d cubes" % (label, L)
+        for names in [["c%d" % j for j in range(L)] for L in (0, 1, 2, 3)] + [["c0", "c0"], ["c0", "c1", "c0"]]:
+            L = len(names)
+            key = "%s with %d cubes" % (label, L) if len(set(names)) == L else "%s with repeated cubes %s" % (label, names)
             try:
                 it = Interp(facts, max_paths=1024)
                 install_stubs(it, facts, C.elem)
                 st = State()
-                names = ["c%d" % j for j in range(L)]
                 v0 = C.mk(st, 4, names)
                 outs = it.call_body(bd, [arg_for(bd["sig"]["inputs"][0], v0, st)], st, {})
                 v, d = PROVED, ""
